@@ -101,6 +101,9 @@ func (p *vfJSONParser) object(m protoreflect.Message) bool {
 }
 
 func vfPJUnmarshal(b []byte, m proto.Message) error {
+	if handled, err := vfWKTUnmarshal(b, m); handled {
+		return err
+	}
 	p := &vfJSONParser{b: b}
 	mr := m.ProtoReflect()
 	if !p.object(mr) {
